@@ -905,6 +905,16 @@ func (d *Driver) judgeC11() {
 // judgeC10safety: every replacement of a live record written by somebody else needs takeover
 // enabled and a strictly higher priority than the one stored in the replaced record.
 func (d *Driver) judgeC10safety() {
+	// the priority an instance publishes in its record is the one it was configured with: the
+	// comparison "strictly greater than the priority stored in that record" means nothing otherwise
+	for _, op := range d.h.Ops {
+		if op.Inst < 0 || !op.Applied || !op.OK || (op.Kind != "update" && op.Kind != "create") {
+			continue
+		}
+		if np := parsePayload(op.Val); np.OK && np.ID == d.inst(op.Inst).cfg.ID && np.Prio != d.inst(op.Inst).cfg.Prio {
+			d.h.violate("C10", "published-priority-differs-from-configured/"+callerSig(op.Caller), fmt.Sprintf("i%d is configured with priority %d but wrote a record with priority %d", op.Inst, d.inst(op.Inst).cfg.Prio, np.Prio), op.TApply, op.SApply)
+		}
+	}
 	for _, op := range d.h.Ops {
 		if op.Inst < 0 || !op.Applied || !op.OK || op.Kind != "update" || op.PrevLive == nil {
 			continue
